@@ -210,6 +210,8 @@ def check(case, obs):
             continue        # an out-of-range id: whatever it answers or raises, the later answers must still be right
         if nm in ("face_id_t", "face_id_l"):
             nm = "face_id"
+        if nm == "edge_v":
+            nm, a = "edge", [B.eid[frozenset(a[:2])], a[2]]
         what = "%s%s" % (nm, tuple(a))
 
         def bad(msg, key=None):
